@@ -4,3 +4,6 @@ open PgmVerif
 #print axioms PgmVerif.C11_hc_acyclic
 #print axioms PgmVerif.C11_best_is_max
 #print axioms PgmVerif.C11_loop_stops_below_eps
+#print axioms PgmVerif.C11_hc_lists
+#print axioms PgmVerif.C11_delta_exact
+#print axioms PgmVerif.C11_hc_monotone
